@@ -53,7 +53,7 @@ add("C12", "exploration", "bounded exhaustive enumeration; L<=n equality and sha
     "L<=n reference")
 
 add("C19", "exploration", "bounded exhaustive enumeration of inputs incl. long error families; catch_unwind, action budget and hang monitor as oracle",
-    "Every accepted grammar of the C01/C03 spaces plus special grammars (terminals matching the empty string, overlapping regexes, comments) x every text up to length n over terminals, a foreign character, blank, a 2-byte character, plus error families of 1..150 foreign tokens, recovery on and off: each run must return Ok or Err without panic (debug assertions and overflow checks on), within an action budget and a 20 s wall-clock monitor, reporting at most 101 errors.",
+    "Every accepted grammar of the C01/C03 spaces plus special grammars (terminals matching the empty string, overlapping regexes, comments) x every text up to length n over terminals, a foreign character, blank, a 2-byte character, plus error families of 1..150 foreign tokens, plus (in worker subprocesses, on a thread with the default 2 MiB stack) recursive grammars with inputs nested 20 000 (thorough 100 000) levels deep, valid / truncated / with a surplus or foreign token, recovery on and off: each run must return Ok or Err without panic (debug assertions and overflow checks on), within an action budget and a 20 s wall-clock monitor, reporting at most 101 errors.",
     BIND)
 add("C20", "model_checking", "exhaustive exploration of option settings (operations) per (grammar, input) against the baseline run of the real parser",
     "For every (grammar, input) of the space the baseline run is compared with runs under every option setting: trim, recovery off, both, every depth limit from 0 to #applications+3 and 10^6 (with/without trim), and four parsers generated with the options baked into the source. Verdict and action trace must be equal unless MaxParsingDepthExceeded is returned, which must be monotone in the limit, absent at 10^6 and never a panic.",
@@ -77,16 +77,16 @@ add("C17", "exploration", "bounded exhaustive enumeration of skip-item placement
     BIND)
 
 add("C18", "exploration", "bounded exhaustive enumeration of grammars with same-text terminals; cross-artefact number equality",
-    "Every ordered pair (and triples) of terminals from a pool with equal texts in different quoting styles and lookaheads in 10 skeletons, scanner-state configurations, %skip templates and a slice of the enumerated spaces, LL and LALR: the number the scanner! rules give each terminal identity (first-occurrence order) must be the number used by PRODUCTIONS, the export model productions and terminal table; automata / LR tables, skip lists and transitions may only refer to terminals valid there.",
+    "Every ordered pair (and triples) of terminals from a pool with equal texts in different quoting styles and lookaheads in 10 skeletons, scanner-state configurations, %skip templates and a slice of the enumerated spaces, LL and LALR: the number the scanner! rules give each terminal identity (first-occurrence order) must be the number used by PRODUCTIONS (and the analysis must agree with a reference analysis that tells the terminals apart: LL decision and lookahead sets against the generated automata, a token-level run of the generated LR table against L<=4; a grammar rejected by the analysis must not be fine for the reference), the export model productions and terminal table; automata / LR tables, skip lists and transitions may only refer to terminals valid there.",
     BIND)
 add("C21", "translation_validation", "exhaustive enumeration of programs (grammars); field-by-field comparison of three encodings of the same parser",
-    "For every accepted grammar of the C18 space the tables recovered from the generated Rust source, the export model JSON and the in-memory analysis results are compared: names, start index, productions, push flags, lookahead automata (identical tables source/model; same language as the analysis automaton on all strings up to k), LR actions via the action index and gotos, scanner modes, built-in rules, error rule, transitions, skip lists, index ranges.",
+    "For every accepted grammar of the C18 space the tables recovered from the generated Rust source, the export model JSON and the in-memory analysis results are compared: names, start index, productions, push flags, lookahead automata (identical tables source/model; same language as the analysis automaton on all strings up to k), LR actions via the action index and gotos, the model's terminals (expanded pattern, lookahead pattern and polarity, scanner states) against the rules of the generated scanner! text, transitions (kind and target), comment lists, scanner modes, built-in rules, error rule, transitions, skip lists, index ranges.",
     "the generated source is read with syn; the export model through serde_json")
 add("C25", "exploration", "bounded exhaustive enumeration of annotated grammars; render + re-read structural equality",
     "Bodies x terminal pairs x per-symbol decorations (^, @member, : type) x declaration headers x LL/LALR, two-state scanner configurations with every directive, plus the C18 space: each grammar, as read and after transformation, is rendered with render_par_string and read back; start symbol, grammar type, every production symbol (text, kind class, states, clipping, member, user type, lookahead), declarations and every ScannerConfig field must be equal.",
     "production / symbol attributes other than clipping are rendered as comments by design and are not compared")
 add("C26", "exploration", "bounded exhaustive enumeration of grammar texts at token, production-body, declaration and character level plus deep-nesting families in worker subprocesses; catch_unwind / exit status as oracle",
-    "Six families (PAR token sequences, production bodies from a menu incl. broken literals and undefined names, declaration lists incl. duplicates and undefined references, every BNF/EBNF grammar of the small spaces well-formed or not, character strings, m-fold nesting in subprocesses with the CLI's stack size), each through the whole pipeline for LL and LALR with K in {1,2,10}: every stage must return Ok or Err.",
+    "Seven families (the C18 space of terminals with equal texts in different quoting styles, PAR token sequences, production bodies from a menu incl. broken literals and undefined names, declaration lists incl. duplicates and undefined references, every BNF/EBNF grammar of the small spaces well-formed or not, character strings, m-fold nesting in subprocesses with the CLI's stack size), each through the whole pipeline for LL and LALR with K in {1,2,10}: every stage must return Ok or Err.",
     "pipeline driven through the public API used by Builder/CLI; debug assertions and overflow checks enabled in the harness build")
 add("C31", "exploration", "exhaustive enumeration of sequence pairs against a textbook DP",
     "All ordered pairs of token-type sequences over 3 symbols up to length 5 (thorough 6) and over 4 symbols up to length 4 (5) are given to the crate-private Recovery::levenshtein_distance (hook H1): the script applied as adjust_token_stream applies it must turn act into exp, its non-keep operations must equal the returned distance, which must equal the DP edit distance.",
@@ -97,7 +97,7 @@ add("C32", "model_checking", "explicit-state BFS over operation sequences on the
 
 LS = "the language server is driven through hooks H3/H4: a JSON-lines interpreter inside a hooks-on parol-ls binary that feeds real LSP notifications/requests to the real Server over lsp_server::Connection::memory()"
 add("C27", "exploration", "bounded exhaustive enumeration of comment placements x formatting options through the real formatting handler; parol's own reader, comment list and idempotence as oracles",
-    "The 23 repository formatter inputs and 6 grammars using every PAR feature, the latter with one comment in every token gap and two comments in every pair of gaps, x all 12 option combinations: the formatted text must be read by parol as a structurally equal GrammarConfig, carry the same comment sequence, and be a fixpoint of the formatter.",
+    "The 23 repository formatter inputs and 6 grammars using every PAR feature, the latter with one comment in every token gap, two comments of every ordered pair of kinds in one gap, and two comments in every pair of gaps, x all 12 option combinations: the formatted text must be read by parol as a structurally equal GrammarConfig, carry the same comment sequence, and be a fixpoint of the formatter.",
     LS)
 add("C28", "exploration", "bounded exhaustive enumeration of texts x every character position x fresh names through the real prepareRename/rename handlers; alpha-renamed GrammarConfig as oracle",
     "Grammars covering every syntactic place an identifier can refer to a non-terminal or scanner state (and name sharing between kinds): for every position and three fresh names the returned edits are applied; parol must read the result as the original grammar with exactly that symbol renamed; start symbol and INITIAL must be refused; every other symbol must be renameable somewhere.",
